@@ -1232,7 +1232,7 @@ c03_step!(inv_alloc_typed_q5_unsync_opt, unsync::Arena, [u64; 5], Optimistic, Ty
 c03_step!(inv_alloc_typed_a16_sync_opt, sync::Arena, A16, Optimistic, Typed, 2, 3, 5);
 // @h props=C03,C01,C10 tier=thorough timeout=1800 bounds=CAP=128,MAXN=2,T=u32,n<=256
 c03_step!(inv_alloc_aligned_u32_sync_pess, sync::Arena, u32, Pessimistic, Aligned, 2, 3, 5);
-// @h props=C03,C01,C10 tier=thorough timeout=1800 bounds=CAP=128,MAXN=2,T=align16x16,n<=256
+// @h props=C03,C01,C10 quick=C03 timeout=1800 bounds=CAP=128,MAXN=2,T=align16x16,n<=256
 c03_step!(inv_alloc_aligned_a16_unsync_opt, unsync::Arena, A16, Optimistic, Aligned, 2, 3, 5);
 // @h props=C03,C01,C10 tier=thorough timeout=1800 bounds=CAP=128,MAXN=2,T=u16,n<=256
 c03_step!(inv_alloc_aligned_u16_sync_opt, sync::Arena, u16, Optimistic, Aligned, 2, 3, 5);
